@@ -92,6 +92,7 @@ structure KSt where
   pend : List (Nat × Nat) := []     -- timer ↦ handler id of the wait whose slot may be busy
   out  : List String := []          -- reversed
   stepNo : Nat := 0                 -- event boundaries seen (step hook)
+  advNo : Nat := 0                  -- clock steps that fired at least one timer (step hook `after_advance`)
   bad  : Bool := false
   threw : Bool := false                        -- run() left through its catch-all
   thrown : Bool := false                       -- a handler threw: unwinding to run()'s catch-all
@@ -959,6 +960,14 @@ def runLoop (p : KParams) (scn : Scn) (hk : Hooks) : Nat → KSt → Nat → KSt
     let s := s.emit ("K idle t=" ++ toString s.k.now)
     let m := (advance p s.k).2
     let s := { s with k := step p s.k .advance }
+    -- step hook `after_advance`: the expired timers' completions are posted, none has run;
+    -- scenario ops placed at this boundary (context `a<k>`)
+    let s := if m > 0 then
+        let s := { s with advNo := s.advNo + 1 }
+        let ac := "a" ++ toString s.advNo
+        doOps p scn hk 8 ac (scn.ops ac) s
+      else s
+    if s.thrown then (runCatch p s, ret + n + m) else
     let last := n + m
     if last > 0 && !s.k.stopped then runLoop p scn hk f s (ret + last)
     else (s, ret + last)
